@@ -183,6 +183,7 @@ func verifyFunc(prog *Prog, sp *FuncSpec) (res *FuncResult) {
 	if sp.Untrusted {
 		fv.setupAllocBudget()
 	}
+	fv.checkAliasDiscipline(fd, st)
 	body := fd.decl.Body.List
 	if from := strings.TrimSpace(sp.Pragmas["from"]); from != "" {
 		body = fv.startFrom(fd, from, st)
